@@ -66,6 +66,8 @@ ExplainedR(pre, e) ==
   \* a call that aborted because UpdatePledgeTotal refused the (short) network total is finding F1, reported
   \* under C03 PledgeTotalNeverBlocks; the lifecycle model has no money
   ELSE IF e.ev \in Modelled /\ ~e.ok /\ PledgeFails(e) # {} THEN TRUE
+  \* (exit code 19 = insufficient funds: the miner cannot afford the pledge or a fee; no money in the lifecycle model)
+  ELSE IF e.ev \in Modelled /\ ~e.ok /\ e.code = 19 THEN AbsReal(MinerByName(e.st, e.m)) = AbsReal(MinerByName(pre, e.m))
   \* while a consensus fault is active the miner may neither commit sectors nor declare recoveries
   ELSE IF e.ev \in {"CommitNI", "DeclareRecovered"} /\ pre.epoch <= MinerByName(pre, e.m).cfElapsed THEN
        ~e.ok /\ AbsReal(MinerByName(e.st, e.m)) = AbsReal(MinerByName(pre, e.m))
@@ -146,6 +148,8 @@ TStep ==
           /\ Chk("C14", "RewardVestsOnSchedule", RewardVestsOnSchedule(Wd, e), "-", e)
           /\ Chk("C14", "NoEarlyUnlock", NoEarlyUnlock(Wd, e), "-", e)
           /\ Chk("C14", "WithdrawBounded", WithdrawBounded(Wd, e), "-", e)
+          /\ Chk("C14", "WithdrawRepaysDebt", WithdrawRepaysDebt(Wd, e), "-", e)
+          /\ Chk("C15", "DebtOnlyRepaidByBurn", DebtOnlyRepaidByBurn(Wd, e), "-", e)
           /\ Chk("C15", "DebtBlocks", DebtBlocks(e), "-", e)
           /\ Chk("C15", "BurnMonotone", BurnMonotone(Wd, e), "-", e)
           /\ Chk("C15", "NoFlowFromBurn", NoFlowFromBurn(e), "-", e)
